@@ -1,7 +1,9 @@
-import ZarrsModel.Model.ShardPE
-import ZarrsModel.Props.C03
-import ZarrsModel.Props.C08
-/- helper lemmas for C05 -/
-namespace Zarrs.ShardPE
-
-end Zarrs.ShardPE
+import ZarrsModel.Lemmas.ShardPEBasic
+import ZarrsModel.Lemmas.ShardPEIndex
+import ZarrsModel.Lemmas.ShardPEFrame
+import ZarrsModel.Lemmas.ShardPEMain
+/- helper lemmas for C05, split into
+   ShardPEBasic (byte strings, positional assignments, `mapM`, `liveEnd`, `wellFormed` as a proposition),
+   ShardPEIndex (the folds of `partialEncode`, the new index position by position),
+   ShardPEFrame (the shape of the written value and what it decodes to),
+   ShardPEMain  (the branches of `partialEncode`, the main statements) -/
